@@ -11,6 +11,7 @@ import Ymq.Props.C19BM
 #print axioms Ymq.C19BM.bm_no_panic_iff
 #print axioms Ymq.C19BM.bm_big_no_panic_iff
 #print axioms Ymq.C19BM.bm_empty_iff
+#print axioms Ymq.C19BM.bm_big_empty_iff
 #print axioms Ymq.C19BM.bm_no_panic
 #print axioms Ymq.C19BM.bm_big_no_panic
 #print axioms Ymq.C19BM.bm_no_panic_recurrence
